@@ -102,15 +102,12 @@ def owned_env(loop: VLoop = None, seed: int = 0, clock=None):
             if callable(val) and id(val) in repl and repl[id(val)][0] is val:
                 patched.append((mod, attr, val))
                 setattr(mod, attr, repl[id(val)][1])
-    old_time = getattr(ndn_utils, 'time', None)
-    old_rand = getattr(ndn_utils, 'randint', None)
     ft = FakeTime(loop) if clock is None else _ClockAdapter(clock)
-    ndn_utils.time = ft
-    ndn_utils.randint = Counter32(seed).randint
-    # whichever way the library reads the wall clock or draws a nonce, the harness owns it for the duration of the execution
-    g_time, g_ns, g_randint = _time.time, _time.time_ns, _random.randint
-    _time.time, _time.time_ns = ft.time, ft.time_ns
-    _random.randint = Counter32(seed + 7).randint
+    # whichever way the library reads the wall clock or draws a nonce, the harness owns it for the duration of the execution:
+    # the process-wide dispatchers of the mc package (installed before the library was imported) answer from mc.CUR
+    import mc as _mc
+    prev_mc = dict(_mc.CUR)
+    _mc.CUR.update(clock=ft, randint=Counter32(seed).randint)
     try:
         yield
     finally:
@@ -118,15 +115,8 @@ def owned_env(loop: VLoop = None, seed: int = 0, clock=None):
             setattr(mod, attr, val)
         _CUR.clear()
         _CUR.update(prev_cur)
-        _time.time, _time.time_ns, _random.randint = g_time, g_ns, g_randint
-        if old_time is not None:
-            ndn_utils.time = old_time
-        elif hasattr(ndn_utils, 'time'):
-            del ndn_utils.time
-        if old_rand is not None:
-            ndn_utils.randint = old_rand
-        elif hasattr(ndn_utils, 'randint'):
-            del ndn_utils.randint
+        _mc.CUR.clear()
+        _mc.CUR.update(prev_mc)
 
 
 class HFace(Face):
